@@ -32,7 +32,8 @@ def jobSpec? (t : String) : Option JobSpec :=
   match t.splitOn ";" with
   | [a, b, c, d, e, f, g, h] => do
     let relId ← a.toNat?
-    let ap ← natList? b
+    -- `L<ids>` = the parents were sent under the deprecated key `parent_ids`, which validate.py renames to `absolute_parent_ids`
+    let ap ← natList? (if b.startsWith "L" then (b.drop 1).toString else b)
     let rp ← natList? c
     let ag ← optNat? d
     let rg ← e.toNat?
